@@ -365,17 +365,50 @@ func (c *FnCtx) mapLookup(st *State, mv Val, key Val) (Val, *Term) {
 		_, touched := st.m[fam]
 		h := c.get(st, fam, ArrS(SInt, ArrS(ks, l.Sort)))
 		out.L[i] = Select(Select(h, mv.L[0]), kt)
-		if !touched && !hasTouched {
+		// absent keys hold the zero value: a representation invariant of Go maps, true of every reachable heap,
+		// so it may be assumed of any named version of the map arrays (entry, after a loop head or a callee's havoc)
+		if (!touched && !hasTouched) || (len(has.Args) == 0 && len(h.Args) == 0) {
 			c.mapAxiom(has, h, ks, zeroLeaf(l))
 		}
 	}
 	if pt, ok := m.Elem().Underlying().(*types.Pointer); ok {
 		out.Root = pt.Elem()
 	}
-	if c.inUnfold == 0 || len(c.bound) == 0 {
+	if len(c.bound) == 0 || !mentionsAny(kt, c.bound) {
 		c.wellFormed(st.reach, out, st)
+	} else if st == c.entry && len(ls) > 0 {
+		// a lookup under a quantifier in the entry state: every value stored in a map of the entry heap is well-formed
+		c.mapWF(st, m, ks)
 	}
 	return out, ok
+}
+
+// mapWF: forall m k. wf(M[m][k]) for the entry versions of a map's value families (once per map type).
+func (c *FnCtx) mapWF(st *State, m *types.Map, ks string) {
+	if c.mapAx == nil {
+		c.mapAx = map[string]bool{}
+	}
+	key := "wf|" + mapFam(m, "v0")
+	if c.mapAx[key] {
+		return
+	}
+	c.mapAx[key] = true
+	mv := Var("m!w", SInt)
+	kv := Var("k!w", ks)
+	ls := leavesOf(m.Elem())
+	v := Val{T: m.Elem(), L: make([]*Term, len(ls))}
+	for i, l := range ls {
+		h := c.get(st, mapFam(m, fmt.Sprintf("v%d", i)), ArrS(SInt, ArrS(ks, l.Sort)))
+		v.L[i] = Select(Select(h, mv), kv)
+	}
+	ts := wfTerms(v, c.get(st, "$alloc", SInt))
+	if len(ts) == 0 {
+		return
+	}
+	saved := c.bound
+	c.bound = nil
+	c.addFact(Forall([]*Term{mv, kv}, And(ts...), []*Term{v.L[0]}))
+	c.bound = saved
 }
 
 // mapAxiom states, for a pair of (has, value) map families, that absent keys hold the zero value
